@@ -172,6 +172,8 @@ impl RK4 {
 
             xold = x;
             yt.copy_from_slice(&y);
+            // Left-end slope for the Hermite interpolant (k1 is overwritten below)
+            cont[n..2 * n].copy_from_slice(&k1);
 
             // Update solution
             x += h;
@@ -189,7 +191,6 @@ impl RK4 {
             if (self.dense_output || event) && solout.is_some() {
                 cont[0..n].copy_from_slice(&yt);
                 for i in 0..n {
-                    cont[n + i] = k4[i];
                     cont[2 * n + i] = k1[i];
                 }
                 cont[3 * n..4 * n].copy_from_slice(&y);
